@@ -76,10 +76,13 @@ Theorem C20_view_counter_balanced : counter_ok bracket lua_runners counter_progr
 Proof. vm_cast_no_check (eq_refl true). Qed.
 Print Assumptions C20_view_counter_balanced.
 
-(** executor.call is the function with the counter operations, and it tests the isView flag *)
+(** executor.call is in the program, tests the isView flag and runs contract code; so does,
+    through it, the callback with which contracts call contracts (the obligation is not vacuous) *)
 Theorem C20_executor_call_translated :
   lookup counter_program "executor.call" = Some Gen.Callbacks.f_executor_call /\
-  uses_view Gen.Callbacks.f_executor_call = true /\ sfree [] Gen.Callbacks.f_executor_call = false.
+  uses_view Gen.Callbacks.f_executor_call = true /\
+  existsb (String.eqb "executor.call") lua_runners = true /\
+  existsb (String.eqb "luaCallContract") lua_runners = true.
 Proof. vm_compute. repeat split. Qed.
 Print Assumptions C20_executor_call_translated.
 
